@@ -590,24 +590,68 @@ func decideGE(h func(int64) (int64, bool), P int64) (bool, int64, bool) {
 // isDstValue: v is the output accumulator of top (its first parameter, or a
 // load of the variable holding it, possibly captured by a loop body).
 func isDstValue(v ssa.Value, top *ssa.Function) bool {
+	return isDstValueRec(v, top, map[ssa.Value]bool{})
+}
+
+// isDstValueRec: v is dst, or what some variable of the codec holds which
+// only ever receives dst, another such variable's content, or an append onto
+// one of those (the output being threaded through helpers' own "dst").
+func isDstValueRec(v ssa.Value, top *ssa.Function, seen map[ssa.Value]bool) bool {
 	if 0 == len(top.Params) {
 		return false
 	}
+	v = stripConv(v, false)
 	if v == ssa.Value(top.Params[0]) {
 		return true
+	}
+	if seen[v] {
+		return true /* a cycle adds nothing new */
+	}
+	seen[v] = true
+	switch x := v.(type) {
+	case *ssa.Phi:
+		for _, e := range x.Edges {
+			if !isDstValueRec(e, top, seen) {
+				return false
+			}
+		}
+		return true
+	case *ssa.Call:
+		if bi, ok := x.Common().Value.(*ssa.Builtin); ok && "append" == bi.Name() {
+			return isDstValueRec(x.Common().Args[0], top, seen)
+		}
+		return false
+	case *ssa.FreeVar:
+		if b := resolveFree(x); b != ssa.Value(x) {
+			return isDstValueRec(b, top, seen)
+		}
+		return false
 	}
 	u, ok := v.(*ssa.UnOp)
 	if !ok || token.MUL != u.Op {
 		return false
 	}
 	a, ok := resolveFree(u.X).(*ssa.Alloc)
-	if !ok || a.Parent() != top {
+	if !ok {
 		return false
 	}
-	for _, st := range storesTo(a) {
-		if st.Val == ssa.Value(top.Params[0]) {
-			return true
+	in := false
+	for _, f := range withAnons(top) {
+		if f == a.Parent() {
+			in = true
 		}
 	}
-	return false
+	if !in {
+		return false
+	}
+	sts := storesTo(a)
+	if 0 == len(sts) {
+		return false
+	}
+	for _, st := range sts {
+		if !isDstValueRec(st.Val, top, seen) {
+			return false
+		}
+	}
+	return true
 }
